@@ -53,10 +53,11 @@ theorem agreesAscii_structural (k : Cls) (h : k.agreesAscii) :
   rcases hr with rfl | rfl | rfl | rfl | rfl | rfl | rfl | rfl | rfl | rfl | rfl | rfl | rfl | rfl | rfl | rfl | rfl | rfl | rfl |
     rfl | rfl | rfl | rfl | rfl <;> decide
 
-/-- the lexer's character-class predicates are the ones the model writes as `isAlnum`, `isWild`, `isWs`, `isEsc` -/
-theorem classFns_ok : Generated.classFns =
-    [("isAlphaNumeric", "r == '_' || unicode.IsLetter(r) || unicode.IsDigit(r)"), ("isWildcard", "r == '*' || r == '?'"),
-     ("isSpace", "r == ' ' || r == '\\t' || r == '\\r' || r == '\\n'"), ("isEscape", "r == '\\\\'")] := by decide
+/-- the lexer's character-class predicates are the ones the model writes as `isAlnum`, `isWild`, `isWs`, `isEsc`
+    (a disjunction of rune tests and unicode class calls, in any order; `none` = shape not recognised) -/
+theorem classFns_ok : optIs Generated.classFns
+    [("isAlphaNumeric", ["rune 95", "unicode.IsDigit", "unicode.IsLetter"]), ("isWildcard", ["rune 42", "rune 63"]),
+     ("isSpace", ["rune 10", "rune 13", "rune 32", "rune 9"]), ("isEscape", ["rune 92"])] = true := by decide
 
 theorem tokNums_ok : Generated.tokNums = TT.all.map (fun t => (t.name, t.num)) := by decide
 
